@@ -6,46 +6,14 @@
   Core Lean only.
 -/
 import SMGo.Proofs.FiatRefine
+import SMGo.Model.SM2InstFiat
 namespace SMGo.Proofs.FiatInst
 open SMGo SMGo.Proofs.Fiat SMGo.Model.Field
 
-/-- the field-operations record built from the generated functions modulo p -/
-def fiatP : FieldOps (List Nat) :=
-  { modulus := Gen.SM2Params.param_P
-    zero := [0, 0, 0, 0]
-    setOne := Gen.FiatP.sm2SetOne
-    add := Gen.FiatP.sm2Add
-    sub := Gen.FiatP.sm2Sub
-    opp := Gen.FiatP.sm2Opp
-    mul := Gen.FiatP.sm2Mul
-    square := Gen.FiatP.sm2Square
-    fromMontgomery := Gen.FiatP.sm2FromMontgomery
-    toMontgomery := Gen.FiatP.sm2ToMontgomery
-    toBytesLE := fun a => (Gen.FiatP.sm2ToBytes a).map UInt8.ofNat
-    fromBytesLE := fun b => Gen.FiatP.sm2FromBytes (b.map UInt8.toNat)
-    raw := id
-    ofRaw := id
-    chain := Gen.AddChain.fieldInverse
-    chainRegs := Gen.AddChain.fieldInverse_regs }
-
-/-- the field-operations record built from the generated functions modulo n -/
-def fiatN : FieldOps (List Nat) :=
-  { modulus := Gen.SM2Params.param_N
-    zero := [0, 0, 0, 0]
-    setOne := Gen.FiatN.sm2ScalarSetOne
-    add := Gen.FiatN.sm2ScalarAdd
-    sub := Gen.FiatN.sm2ScalarSub
-    opp := Gen.FiatN.sm2ScalarOpp
-    mul := Gen.FiatN.sm2ScalarMul
-    square := Gen.FiatN.sm2ScalarSquare
-    fromMontgomery := Gen.FiatN.sm2ScalarFromMontgomery
-    toMontgomery := Gen.FiatN.sm2ScalarToMontgomery
-    toBytesLE := fun a => (Gen.FiatN.sm2ScalarToBytes a).map UInt8.ofNat
-    fromBytesLE := fun b => Gen.FiatN.sm2ScalarFromBytes (b.map UInt8.toNat)
-    raw := id
-    ofRaw := id
-    chain := Gen.AddChain.scalarInverse
-    chainRegs := Gen.AddChain.scalarInverse_regs }
+/-- the field-operations records built from the generated functions: defined (core Lean, executable)
+    in `SMGo/Model/SM2InstFiat.lean`, where the limb-level context `ctxFiat` is built from them -/
+abbrev fiatP : FieldOps (List Nat) := Model.SM2.fiatP
+abbrev fiatN : FieldOps (List Nat) := Model.SM2.fiatN
 
 /-! ### mod p -/
 
